@@ -148,11 +148,11 @@ func (r *runner) exec(src string) vh.Outcome {
 				return vh.Outcome{Kind: "bad-answer", Detail: strings.TrimSpace(l)}
 			}
 			return vh.Outcome{Kind: rs.Kind, Out: rs.Out, Detail: rs.Detail}
-		case <-time.After(20 * time.Second):
+		case <-time.After(60 * time.Second):
 			r.w.kill()
 			r.w = nil
 			r.crashes++
-			return vh.Outcome{Kind: "hang", Detail: "no answer within 20s"}
+			return vh.Outcome{Kind: "hang", Detail: "no answer within 60s"}
 		}
 	}
 	return vh.Outcome{Kind: "no-worker", Detail: fmt.Sprint("could not talk to the child")}
